@@ -235,6 +235,8 @@ def gen_cases(tier, seed):
         # two glob patterns: every file matched by either must get its check
         ({'alpha.out': 'alpha\n', 'gamma.out': 'gamma\n', 'beta.csv': 'a,b\n1,2\n', 'delta.csv': 'c\n3\n'},
          ['*.out', '*.csv']),
+        # output files outside the working directory, in directories whose path merely starts with the cwd's path
+        ({'../work2/e.txt': 'outside\n', '../work.out/d.txt': 'outside too\n'}, ['../work2/e.txt', '../work.out/d.txt']),
         # a qualified name (x + '2') that is already another file's name
         ({'a/x2': 'first\n', 'b/x': 'second\n', 'c/x': 'third\n'}, ['a/x2', 'b/x', 'c/x']),
         # output files named like the generated script's own checks
@@ -266,6 +268,13 @@ def gen_cases(tier, seed):
     for name, extra in env_lines:
         cases.append(dict(out='hello\n', err='', code=0, files={'o.txt': 'data\n'}, refs=['o.txt'],
                           script='test_env_' + name, iterations=2, extra=extra))
+    # a directory argument holding a file that exists before generation and is overwritten with its timestamps preserved
+    # (cp -p from a template whose modification time is old): it is an output all the same
+    keep = ['mkdir -p out template', 'printf "%s\\n" "report v1" > template/r.txt', 'touch -t 202001010000 template/r.txt',
+            'cp -p template/r.txt out/r.txt', 'printf "fresh\\n" > out/new.txt']
+    keep_changed = [l.replace('report v1', 'report v2') for l in keep]
+    cases.append(dict(out='published\n', err='', code=0, files={}, refs=['out'], script='test_env_keep', iterations=2,
+                      extra=keep, extra_changed=keep_changed))
     # a file written under the temporary directory gentest provides is checked without being named
     cases.append(dict(out='hello\n', err='', code=0, files={}, refs=[], script='test_env_tmpfile', iterations=2,
                       extra=['echo "scratch data" > "$TMPDIR/scratch.txt"'],
